@@ -769,6 +769,8 @@ def replace_str(s, frm, to, limit=None, hard_cap=None):
         inc = ite_bv(st_, tl, ite_bv(kp, 1, 0, 8), 8)
         o = bv_add(o, inc, 8)
     total = o
+    if isinstance(total, int):
+        cap_out = total; capped = False       # the result length is known: the bound on symbolic-length results does not apply
     out = []
     for j in range(cap_out):
         b = 0
@@ -891,18 +893,44 @@ def in_set(bytes_):
 
 
 def closure_on_bytes(ex, clo, f, idxs, done):
-    """apply a char predicate closure to the bytes f.bs[i] (i in idxs, ASCII assumed) one after the other; done(list of bools)"""
-    res = []
-
-    def go(k):
-        if k == len(idxs): return done(res)
+    """apply a char predicate closure to the bytes f.bs[i] (i in idxs, ASCII assumed) one after the other; done(list of bools).
+    The closure may fork: the results are threaded through the continuations, never shared between paths."""
+    def go(k, acc):
+        if k == len(idxs): return done(list(acc))
         b = f.bs[idxs[k]]
         ch = Int('char', b if isinstance(b, int) else z3.ZeroExt(24, b))
 
         def cont(ex_, st_, r):
-            res.append(r); return LazyR(lambda: go(k + 1))
+            return LazyR(lambda: go(k + 1, acc + (r,)))
         return CallFn(clo, [ch], cont)
-    return go(0)
+    return go(0, ())
+
+
+def _trim_closure_walk(ex, s, f, clo, do_l, do_r):
+    n = f.ln
+
+    def finish(lo, hi): return s.substr(lo, hi - lo) if hi > lo else SymStr(())
+
+    def right(lo, hi):
+        if not do_r or hi <= lo: return finish(lo, hi)
+
+        def cont(ex_, st_, r):
+            r = simp_bool(r) if not isinstance(r, bool) else r
+            if r is True: return LazyR(lambda: right(lo, hi - 1))
+            if r is False: return finish(lo, hi)
+            return Fork([(r, LazyR(lambda: right(lo, hi - 1))), (b_not(r), LazyR(lambda: finish(lo, hi)))])
+        return CallFn(clo, [char_of(f.bs[hi - 1])], cont)
+
+    def left(lo):
+        if not do_l or lo >= n: return right(lo, n)
+
+        def cont(ex_, st_, r):
+            r = simp_bool(r) if not isinstance(r, bool) else r
+            if r is True: return LazyR(lambda: left(lo + 1))
+            if r is False: return LazyR(lambda: right(lo, n))
+            return Fork([(r, LazyR(lambda: left(lo + 1))), (b_not(r), LazyR(lambda: right(lo, n)))])
+        return CallFn(clo, [char_of(f.bs[lo])], cont)
+    return left(0)
 
 
 @model(r'^core::str::<impl str>::(trim_matches|trim_start_matches|trim_end_matches|trim_left_matches|trim_right_matches)$')
@@ -914,11 +942,13 @@ def m_trim_matches(ex, st, c):
     if kind == 'set': return trim_by(s, in_set(p), do_l, do_r)
     if kind == 'closure':
         f = s.flat()
-        if f.cap > 16: raise Unsupported('closure pattern over a long string')
+        if f.conc_len:
+            # concrete length: walk inwards from the ends, one closure call per examined character, stopping at the first character
+            # the predicate rejects (the closure may fork on a symbolic character; each path continues on its own)
+            return _trim_closure_walk(ex, s, f, p, do_l, do_r)
+        if f.cap > 16: raise Unsupported('closure pattern over a long string of symbolic length')
         def done(bits):
             table = list(bits)
-            def pred_at(i): return table[i]
-            # trim_by wants a predicate on bytes; here the predicate is positional
             g = s.flat(); n = g.cap
             start = 0
             if do_l:
@@ -1371,6 +1401,24 @@ def m_int_methods(ex, st, c):
     raise Unsupported(op)
 
 
+def not_char_boundary(ex, s, idx):
+    """str slicing: `idx` falls inside a multi-byte character (only possible when non-ASCII text is in the domain)"""
+    if not getattr(ex, 'allow_non_ascii', False): return False
+    f = s.flat()
+    if isinstance(idx, int):
+        if idx <= 0 or idx >= f.cap: return False
+        b = f.bs[idx]
+        inside = bv_ult(idx, f.ln, LW)
+    else:
+        b = f.byte_at(idx); inside = b_and(bv_ult(idx, f.ln, LW), b_not(bv_eq(idx, 0, LW)))
+    if isinstance(b, int): cont = (b & 0xC0) == 0x80
+    else:
+        d = byte_domain(b)
+        if d is not None and not any((x & 0xC0) == 0x80 for x in d): cont = False
+        else: cont = (z3.Extract(7, 6, b) == 2)
+    return b_and(inside, cont)
+
+
 @model(r'^core::str::<impl str>::get$', r'^core::str::<impl str>::get_mut$')
 def m_str_get(ex, st, c):
     s = D(ex, st, c.args[0]); r = D(ex, st, c.args[1])
@@ -1383,7 +1431,8 @@ def m_str_get(ex, st, c):
     else: raise Unsupported('str::get with ' + ty)
     bad = b_or(int_binop('Gt', a, b), int_binop('Gt', b, n))
     if bad is True: return NONE
-    # (char boundaries: strings are ASCII in this domain)
+    # char boundaries matter only when non-ASCII text is in the domain (ex.allow_non_ascii)
+    bad = b_or(bad, not_char_boundary(ex, s, a.v), not_char_boundary(ex, s, b.v))
     return Fork([(bad, NONE), (b_not(bad), LazyR(lambda: Some(s.substr(a.v, bv_sub(b.v, a.v, LW)))))])
 
 
@@ -1829,7 +1878,15 @@ def m_range_index(ex, st, c):
         return Vec(v.items[a.v:b.v])
     if bad is True: return Panic('range index out of bounds')
     sub = v.substr(a.v, bv_sub(b.v, a.v, LW))
-    return Fork([(bad, Panic('slice index out of range')), (b_not(bad), sub)])
+    alts = [(bad, Panic('slice index out of range'))]
+    ok = b_not(bad)
+    if re.match(r'^<(String|str) as', c.callee):
+        ncb = b_or(not_char_boundary(ex, v, a.v), not_char_boundary(ex, v, b.v))
+        if ncb is not False:
+            alts.append((b_and(ok, ncb), Panic('byte index is not a char boundary')))
+            ok = b_and(ok, b_not(ncb))
+    alts.append((ok, sub))
+    return Fork(alts)
 
 
 @model(r'^core::slice::<impl \[.*\]>::windows$')
